@@ -184,6 +184,7 @@ type gateway struct {
 	cs     *stubClientSets
 	lim    flowcontrols.UpstreamLimiter
 	cancel context.CancelFunc
+	local  flowcontrol.FlowControl // the object handed out while the remote limiter is not in effect
 }
 
 func newGateway(cfg schemaCfg, id string, pool int) *gateway {
@@ -193,7 +194,10 @@ func newGateway(cfg schemaCfg, id string, pool int) *gateway {
 	lim.Sync(proxyv1alpha1.FlowControl{Schemas: []proxyv1alpha1.FlowControlSchema{cfg.schema()}})
 	// exactly what ClusterInfo.Sync does when the GlobalRateLimiter feature gate is on
 	lim.ResetLimiter(flowcontrol.RemoteFlowControls)
-	return &gateway{cfg: cfg, cs: cs, lim: lim, cancel: cancel}
+	// the stub is not ready yet: what the dispatcher gets now is the local fallback object. Its identity is only used to
+	// attribute admissions to "the local limiter object" vs "the remote one" (whatever Load() chooses to hand out for the
+	// fallback: the wrapper or the limiter behind it); the schema's type never changes in this check, so it is stable.
+	return &gateway{cfg: cfg, cs: cs, lim: lim, cancel: cancel, local: lim.GetOrDefault(schemaName)}
 }
 
 // fc is how the dispatcher obtains the limiter for a request.
